@@ -1,6 +1,16 @@
 (* C15 — Events that happen before for_each() are kept, in order, and delivered first. *)
-From MIO Require Import Base Node NodeProofs.
+From MIO Require Import Base Gen Node NodeProofs.
 Local Open Scope N_scope.
+
+(* what the model assumes of node.rs, re-read from the source on every run: the start-up cache is an
+   unbounded FIFO (created empty, one push_back in the cache thread, pop_front in the two replay
+   loops, nothing else); the cache thread's wait is bounded and re-reads its flag (so the hand-over
+   happens whatever the traffic); enqueue() forwards every event through the plain send() of ONE
+   queue (whose FIFO order is C06) *)
+Theorem C15_gen_obligation :
+  NODE_CACHE_IS_UNBOUNDED_FIFO = true /\ NODE_ENQUEUE_FORWARDS_WITH_PLAIN_SEND = true /\
+  NODE_WAITS_BOUNDED_BY_SAMPLING_TIMEOUT = true /\ NODE_WAITS_AT_LOOP_HEADS_THAT_READ_THE_FLAG = true.
+Proof. repeat split; vm_compute; reflexivity. Qed.
 
 (* `produced` = the network events the processor emitted, in order: first by the cache thread
    (before the listener call), then — the same processor, handed over by the join — by the
@@ -24,4 +34,5 @@ Example C15_example :
   end.
 Proof. vm_compute. repeat split; reflexivity. Qed.
 
+Print Assumptions C15_gen_obligation.
 Print Assumptions C15_cached_first_in_order.
